@@ -38,7 +38,9 @@ FIELD_CHOICES = {
     'latex_group_delimiters': [[('{', '}')], [('{', '}'), ('[', ']')], [('<', '>')], [('{', '}'), ('(', ')')]],
     'latex_inline_math_delimiters': [[('$', '$'), ('\\(', '\\)')], [('$', '€')], [('€', '€')], [('\\(', '\\)')],
                                      [('$', '$')]],
-    'latex_display_math_delimiters': [[('$$', '$$'), ('\\[', '\\]')], [('$$', '€€')], [('\\[', '\\]')], [('€€', '$$')]],
+    'latex_display_math_delimiters': [[('$$', '$$'), ('\\[', '\\]')], [('$$', '€€')], [('\\[', '\\]')], [('€€', '$$')],
+                                      # pairs that are also (default / configured) inline delimiters
+                                      [('\\(', '\\)')], [('$', '$'), ('\\[', '\\]')]],
     'enable_double_newline_paragraphs': [True, False],
     'enable_macros': [True, False],
     'enable_environments': [True, False],
@@ -134,13 +136,21 @@ def parse_with(s, ps):
         return ('exc', type(e).__name__, str(e)[:80])
 
 
+def deep_fields(ps):
+    """Field values with the list-valued ones copied (a state hands its own list objects on to its children)."""
+    import copy
+    return {k: (copy.deepcopy(v) if isinstance(v, (list, dict, set)) else v) for k, v in ps.get_fields().items()}
+
+
 def build(chain, with_ctx):
     """Returns (derived, fresh, error)"""
     ps = ParsingState(s=None, latex_context=(default_ctx() if with_ctx else None))
-    model = dict(ps.get_fields())
+    model = deep_fields(ps)
+    ancestors = []
     for kw in chain:
         kw = detuple(kw)
-        before = dict(ps.get_fields())
+        before = deep_fields(ps)
+        ancestors.append((ps, before))
         try:
             ps2 = ps.sub_context(**kw)
         except Exception as e:
@@ -160,6 +170,12 @@ def build(chain, with_ctx):
                 kw, {k: got[k] for k in got if got[k] != model.get(k)},
                 {k: model[k] for k in got if got[k] != model.get(k)})
         ps = ps2
+    # no later step may have altered an earlier state of the chain either
+    for i, (a, snap) in enumerate(ancestors):
+        now = a.get_fields()
+        if now != snap:
+            return None, None, 'state %d of the chain was altered by a later sub_context() step: %r -> %r' % (
+                i, {k: snap[k] for k in snap if snap[k] != now[k]}, {k: now[k] for k in snap if snap[k] != now[k]})
     try:
         fresh = ParsingState(**ps.get_fields())
     except Exception as e:
